@@ -93,6 +93,8 @@ pub struct CheckDiag {
     pub pkg: String,
     pub message: String,
     pub lines: Vec<u64>,
+    /// lines of main.rs the primary spans expand from
+    pub primary_lines: Vec<u64>,
 }
 
 pub fn check_workspace_diags(ws: &Path) -> (bool, Vec<CheckDiag>, String) {
@@ -119,15 +121,19 @@ pub fn check_workspace_diags(ws: &Path) -> (bool, Vec<CheckDiag>, String) {
                             collect(&span["expansion"]["span"], lines);
                         }
                     }
+                    let mut primary_lines = vec![];
                     for s in v["message"]["spans"].as_array().cloned().unwrap_or_default() {
                         collect(&s, &mut lines);
+                        if s["is_primary"].as_bool().unwrap_or(false) {
+                            collect(&s, &mut primary_lines);
+                        }
                     }
                     for c in v["message"]["children"].as_array().cloned().unwrap_or_default() {
                         for s in c["spans"].as_array().cloned().unwrap_or_default() {
                             collect(&s, &mut lines);
                         }
                     }
-                    diags.push(CheckDiag { pkg, message: msg, lines });
+                    diags.push(CheckDiag { pkg, message: msg, lines, primary_lines });
                 }
             }
             (o.status.success(), diags, String::from_utf8_lossy(&o.stderr).chars().rev().take(2000).collect::<String>().chars().rev().collect())
